@@ -32,7 +32,7 @@ ODD_NAMES = ["10", "9", "2", "1a", "B", "a", "_x"]  # lexicographic order differ
 def plan(tier, seed):
     q = tier == "quick"
     n = 16
-    specs = [{"kind": "mix", "i": i, "n": n, "maxleaves": 6 if q else 7, "sub4_stride": 1, "nrand": 100 if q else 600, "hist": 4, "nsuper": 12 if q else 100} for i in range(n)]
+    specs = [{"kind": "mix", "i": i, "n": n, "maxleaves": 6 if q else 7, "sub4_stride": 1, "nrand": 250 if q else 600, "hist": 4, "nsuper": 30 if q else 100} for i in range(n)]
     return specs
 
 
